@@ -70,7 +70,7 @@ class SectionOutput(Output):
     def _get_line_height(self, line_content):  # type: (str) -> int
         return (
             math.ceil(
-                len(self.remove_format(line_content).replace("\t", "        "))
+                len(self.remove_format(line_content).expandtabs(8))
                 / self._terminal.width
             )
             or 1
